@@ -186,8 +186,8 @@ def check(case, r, out):
                                 continue
                             if el.get(3) != e.code:
                                 continue
-                            if e.ref_num and el.get(2) != e.ref_num:
-                                continue
+                            if e.ref_num and e.ref_num.isdigit() and el.get(2) != e.ref_num:
+                                continue      # (AK402 is numeric; a composite id such as C023 has no place there)
                             v = e.value
                             if v and not (set(v) & set('~*:^\r\n')):
                                 got = el.get(4)
